@@ -413,11 +413,12 @@ Proof.
        | inversion H; subst; apply tframe_cons_any; [apply wf_cons_mark; exact W|exact W]
        | inversion H; subst; apply tframe_cons_any; [apply wf_cons_mark; exact W|exact W] ]).
   - (* obs *)
-    destruct o as [x|x].
+    destruct o as [x|x|ge].
     + destruct (literal_length (view st te) (EName x)); inversion H; subst; apply tframe_refl; exact W.
     + destruct (tlookup x te) as [[v0|l|]|]; try discriminate.
       * destruct v0; try discriminate. destruct (forallb is_num_entry l); inversion H; subst. apply tframe_refl; exact W.
       * destruct (forallb is_num_entry (nth l st [])); inversion H; subst. apply tframe_refl; exact W.
+    + destruct (glyph_bitmap (view st te) ge); inversion H; subst. apply tframe_refl; exact W.
   - inversion H; subst. apply tframe_refl; exact W.
 Qed.
 
@@ -665,7 +666,7 @@ Proof.
     destruct (robs o rho) as [ov|] eqn:O; [|discriminate]. inj Hr.
     assert (RB : rblock [SObs o] orc' rho' = Some (rho', [ov], orc')).
     { rewrite rblock_single, rstep_simple by exact I. cbn [rsimple]. rewrite O. reflexivity. }
-    destruct o as [x|x].
+    destruct o as [x|x|ge].
     + destruct (literal_length (view st te) (EName x)) as [n|] eqn:LL; inj H.
       * split; [|split; assumption]. cbn [robs] in O. destruct (lookup x rho') as [xv|] eqn:Lr; [|discriminate].
         assert (PC : py_call n_len [xv] = Ok (VInt n)).
@@ -678,6 +679,15 @@ Proof.
         rewrite Rx in O. inj O. split; [reflexivity|split; assumption].
       * destruct (forallb is_num_entry (nth l st [])); [|discriminate]. inj H.
         rewrite Rx in O. inj O. split; [reflexivity|split; assumption].
+    + destruct (glyph_bitmap (view st te) ge) as [zs| | |] eqn:GB; try discriminate.
+      assert (G : in_guard (view st te) ge = true) by (injection H; auto).
+      unfold glyph_bitmap in GB.
+      destruct (eval_const (view st te) ge) as [gv|k|] eqn:E; try discriminate.
+      pose proof (eval_const_sound _ _ _ _ AG U G E) as PE.
+      inj H. split; [|split; assumption]. cbn [robs] in O. rewrite PE in O.
+      destruct gv; try discriminate;
+        (destruct (glyph_rows l) as [zs'|]; [|discriminate]; destruct (Nat.eqb (length zs') 8); [|discriminate];
+         inj GB; inj O; reflexivity).
   - exfalso. injection H; intros; discriminate.
 Qed.
 
